@@ -4,6 +4,8 @@ package main
 
 import (
 	"fmt"
+	"go/types"
+	"golang.org/x/tools/go/ssa"
 	"strings"
 )
 
@@ -15,6 +17,7 @@ func runC02(r *Report, tier string) {
 	P := r.P
 	r.rule("R02.1", "structure conformance: at the Sign1 key sites the content term equals Enc(['Signature1', DetBstr(ProtBytes(recv.Headers)), NilToEmpty(external), recv.Payload]); at the Signature key sites Enc(['Signature', DetBstr(body), DetBstr(ProtBytes(recv.Headers)), NilToEmpty(external), payload]) with body/payload/external the method's parameters; Enc is the package's deterministic encoder mode; ProtBytes(H) is {H.RawProtected, Enc(H.Protected)}; COSE_Sign hands ProtBytes(m.Headers), m.Payload and its own external parameter to every signer; the untagged forms delegate to the tagged methods.")
 	r.rule("R02.2", "footprint: the content term reads only Headers.RawProtected, Headers.Protected, Payload and the parameters; no leaf under Unprotected, RawUnprotected, Signature(s), and no tag constant.")
+	r.rule("R02.4", "the retained raw header bytes (Headers.RawProtected / RawUnprotected) of a value reached through a pointer are written only in the decoder family; elsewhere only a function's own by-value copy is touched, so a verification that follows a decode sees the protected bytes as received.")
 	r.rule("R02.3", "head normalisation is total on bstr: the normaliser fails only for empty input, a major type other than 2, or a mode error; every other path returns its argument itself or Enc(Dec(argument) as []byte) with the package modes; the argument is returned unchanged only under conditions that imply a shortest-form head (additional information < 24; 24 with value >= 24; 25/26/27 with a non-zero byte among the first 1/2/4 value bytes).")
 	r.rule("R09.2", "Headers.MarshalProtected returns RawProtected itself exactly when len(RawProtected) > 0 and otherwise the package encoder's output for the map (the raw bytes win whenever they exist).")
 	r.assumes("A4: EncMode.Marshal with Sort=bytewise-lexical and IndefLength forbidden is deterministic CBOR (configuration checked under R08.1)")
@@ -183,6 +186,7 @@ func runC02(r *Report, tier string) {
 	}
 	checkMarshalBuckets(r, "R09.2")
 	checkHeadNormalizer(r, "R02.3")
+	checkRawBucketWriters(r, "R02.4")
 }
 
 // encoderDeterministic: "" when the named encode mode is built with the
@@ -381,4 +385,41 @@ func mutC02() []mutant {
 		{Name: "untagged Verify builds its own structure", File: "sign1.go", Rule: "R02.1",
 			Old: "func (m *UntaggedSign1Message) Verify(external []byte, verifier Verifier) error {\n\treturn (*Sign1Message)(m).Verify(external, verifier)", New: "func (m *UntaggedSign1Message) Verify(external []byte, verifier Verifier) error {\n\treturn (*Sign1Message)(m).Verify(nil, verifier)"},
 	}
+}
+
+// checkRawBucketWriters: R02.4 - who may write the retained raw header bytes.
+// The protected bytes that enter the Sig_structure on verification are
+// Headers.RawProtected as the decoder captured them; a store into a Raw*
+// field of Headers through a pointer (i.e. into somebody else's Headers) is
+// only found in the decoder family, where the whole value is being built.
+// Stores into a local by-value copy (the hash-envelope producer dropping the
+// caller's raw bytes before signing) are its own business.
+func checkRawBucketWriters(r *Report, rule string) {
+	P := r.P
+	decFam := P.decoderFamily()
+	n := 0
+	for _, fn := range P.Funcs {
+		for _, b := range fn.Blocks {
+			for _, in := range b.Instrs {
+				st, ok := in.(*ssa.Store)
+				if !ok {
+					continue
+				}
+				fa, ok := st.Addr.(*ssa.FieldAddr)
+				if !ok || !isNamed(deref(fa.X.Type()), cosePath, "Headers") {
+					continue
+				}
+				f := deref(fa.X.Type()).Underlying().(*types.Struct).Field(fa.Field).Name()
+				if f != "RawProtected" && f != "RawUnprotected" {
+					continue
+				}
+				n++
+				root, _ := P.terms.addrPath(st.Addr)
+				_, local := root.(*ssa.Alloc)
+				o := r.ob(rule, shortFn(fn)+":store:"+f, fn, st, "retained raw header bytes are written only while a decoder builds the value, or in a function's own by-value copy")
+				o.check(local || decFam[fn], "local value or decoder family", "Headers."+f+" of a value reached through a pointer is overwritten outside the decoders: a verifier that runs afterwards no longer sees the bytes as received")
+			}
+		}
+	}
+	r.floorSoft(rule, n, 2, "stores into raw header fields")
 }
